@@ -73,9 +73,11 @@ def case_st(draw):
                                     'server': {'message': 2.0 ** -9}},
                                    {'client': {'disconnect': 0.25, 'message': 2.0 ** -9},
                                     'server': {'disconnect': 0.25, 'message': 2.0 ** -9}}]))
+    # ping_interval given as (interval, grace): the client is told interval + grace
+    grace = draw(st.sampled_from([None, None, None, 0.5, 'T+1']))
     return {'impl': impl, 'server': server, 'transports': transports, 'I': I, 'T': T,
             'async_handlers': draw(st.booleans()), 'steps': steps, 'end': end,
-            'send_in_connect': pre, 'server_greets': greets, 'delays': delays}
+            'send_in_connect': pre, 'server_greets': greets, 'delays': delays, 'grace': grace}
 
 
 def tagged(side, seq, p):
@@ -98,6 +100,9 @@ def check_case(case, ctx=None, idle_scale=1.0):
     rep = dict(case)
     cfg = {'ping_interval': case['I'], 'ping_timeout': case['T'],
            'async_handlers': case['async_handlers'], 'http_compression': False}
+    if case.get('grace') is not None:
+        g = case['T'] + 1 if case['grace'] == 'T+1' else case['grace']
+        cfg['ping_interval'] = (case['I'], g)
     h = (TClientHarness if client_kind == 'thread' else AClientHarness)(cfg, server=server_kind)
     I, T = case['I'], case['T']
     csent, ssent = [], []
@@ -189,6 +194,8 @@ def check_case(case, ctx=None, idle_scale=1.0):
                 cls.append('send-in-connect-handler')
             if case.get('delays'):
                 cls.append('handlers-taking-time')
+            if case.get('grace') is not None:
+                cls.append('interval-with-grace-%s' % case['grace'])
             ctx.case(rep, nt, cls)
     finally:
         h.teardown()
